@@ -74,6 +74,8 @@ func apply(w *world.World, e *Event) bool {
 		return w.AsgSetDesired(e.G, e.A)
 	case "instance_gone":
 		return w.InstanceGone(e.G, e.N)
+	case "instance_lost":
+		return w.LoseInstance(e.G, e.N)
 	case "restart":
 		return w.Restart() == nil
 	case "lag_on":
@@ -219,6 +221,8 @@ var profiles = map[string]map[string]int{
 	// more nodes than max_nodes: operators bump the desired capacity, nodes register, pods land on tainted nodes (tolerations)
 	"overmax": {"scan": 30, "tick": 14, "pod_arrive": 3, "pod_schedule": 12, "pod_finish": 7, "launch": 8, "register": 10, "cordon": 1, "ext_taint": 10, "ext_untaint": 0, "force": 2, "annotate": 0, "node_gone": 8, "asg_edit": 0, "restart": 1, "lag": 0, "shuffle": 1},
 	"annotlate": {"scan": 30, "tick": 20, "pod_arrive": 3, "pod_schedule": 5, "pod_finish": 10, "launch": 2, "register": 4, "cordon": 2, "ext_taint": 8, "ext_untaint": 1, "force": 3, "annotate": 8, "node_gone": 1, "asg_edit": 0, "restart": 1, "lag": 0, "shuffle": 3},
+	// instances are replaced by the cloud (lost, relaunched, registered) between removals: membership changes while counts do not
+	"swap": {"scan": 30, "tick": 6, "pod_arrive": 2, "pod_schedule": 2, "pod_finish": 6, "launch": 12, "register": 12, "cordon": 0, "ext_taint": 4, "ext_untaint": 0, "force": 12, "annotate": 0, "node_gone": 12, "asg_edit": 0, "restart": 1, "lag": 0, "shuffle": 1},
 	"lock": {"scan": 38, "tick": 16, "pod_arrive": 14, "pod_schedule": 4, "pod_finish": 4, "launch": 4, "register": 6, "cordon": 5, "ext_taint": 4, "ext_untaint": 0, "force": 3, "annotate": 0, "node_gone": 0, "asg_edit": 2, "restart": 2, "lag": 0, "shuffle": 1},
 }
 
@@ -364,6 +368,9 @@ func genInit(r *rand.Rand, o genOpts) *world.State {
 		}
 		if o.profile == "overmax" {
 			amax = cfg.Max + 2 + r.Intn(2)
+		}
+		if cfg.Auto && r.Intn(3) == 0 { // an auto-discovering group whose cloud group is pinned: min = max = current size
+			amin, amax = n, n
 		}
 		gs.Asg = world.Asg{Min: amin, Max: amax, Desired: n, Members: members, Terminating: []string{}, Linger: r.Intn(3) == 0}
 		gs.Pc = gs.Asg
@@ -570,6 +577,13 @@ func genStep(r *rand.Rand, w *world.World, o genOpts, nextID map[string]int, ste
 				e.Faults = []world.Fault{{Op: "describe_asgs", T: "#1"}}
 			}
 		}
+		if o.refresh && r.Intn(2) == 0 { // a refresh failure while some group is cooling down after an accepted scale-up
+			for _, h := range st.Gorder {
+				if hs := st.Groups[h]; hs.Accepted != world.Never && st.Now-hs.Accepted < hs.Cfg.Cool {
+					e.Faults = []world.Fault{{Op: "describe_asgs", T: "#1"}}
+				}
+			}
+		}
 		e.Twin = o.twinAll || r.Intn(6) == 0
 		return e
 	case "tick":
@@ -636,6 +650,9 @@ func genStep(r *rand.Rand, w *world.World, o genOpts, nextID map[string]int, ste
 	case "annotate":
 		return Event{Ev: []string{"annotate", "annotate", "unannotate"}[r.Intn(3)], N: pick(), S: []string{"x", "reason", ""}[r.Intn(3)]}
 	case "node_gone":
+		if (o.profile == "swap" || r.Intn(4) == 0) && len(gs.Asg.Members) > 0 && r.Intn(2) == 0 { // the cloud takes an instance away; its Node stays for now
+			return Event{Ev: "instance_lost", G: g, N: gs.Asg.Members[r.Intn(len(gs.Asg.Members))]}
+		}
 		if r.Intn(2) == 0 && gs.Asg.Desired < gs.Asg.Max {
 			return Event{Ev: "asg_desired", G: g, A: gs.Asg.Desired + 1} // an operator bumps the desired capacity by hand
 		}
@@ -645,6 +662,9 @@ func genStep(r *rand.Rand, w *world.World, o genOpts, nextID map[string]int, ste
 			mn := r.Intn(3)
 			if !gs.Cfg.Auto && r.Intn(2) == 0 { // keep the minimum, move the maximum around max_nodes
 				return Event{Ev: "asg_edit", G: g, A: gs.Asg.Min, B: gs.Asg.Desired + r.Intn(gs.Cfg.Max+3)}
+			}
+			if gs.Cfg.Auto && r.Intn(4) == 0 { // pin the cloud group at its current size
+				return Event{Ev: "asg_edit", G: g, A: gs.Asg.Desired, B: gs.Asg.Desired}
 			}
 			return Event{Ev: "asg_edit", G: g, A: mn, B: mn + 1 + r.Intn(o.maxNodes+2)}
 		}
